@@ -7,27 +7,32 @@ ID = 'C20'
 LEVEL = 'proof'
 PROPS = ['Props/C20.v']
 TRUSTED = [
-    'hand-written model Model/C20Opt.v of Attribute.__get__/__set__ read/write bits, the first load of a row, '
-    'Entity._construct_optimistic_criteria_, Entity._save_updated_ (UPDATE ... WHERE pk AND criteria, rowcount check) and '
-    'db_session commit/rollback; tied on every run by replaying every enumerated schedule on real db_sessions '
-    '(one thread per session, one SQLite file) and comparing final row, per-session outcome, every value observed and every '
-    'captured UPDATE statement with the model inside Coq (vm_compute)',
-    'the harness (tools/c20_sessions.py, c20_driver.py): step-by-step scheduling of worker threads, sqlite3 set_trace_callback '
-    'capture of expanded SQL, parser of the captured UPDATE statements',
+    'hand-written models, each tied on every run by replaying every enumerated history on real db_sessions over one SQLite file and comparing, inside Coq '
+    '(vm_compute), final rows, per-session outcome, every value observed and every captured INSERT/UPDATE statement: '
+    'Model/C20Opt.v (n sessions, one shared row: Attribute.__get__/__set__ read/write bits, first load, Entity._construct_optimistic_criteria_, '
+    'Entity._save_updated_ with the rowcount check, db_session commit/rollback); '
+    'Model/C20Life.v (one session, several transactions: SessionCache.commit, cache.for_update and its lifetime, get_for_update re-fetch, _save_created_, '
+    'what a flush does to read/write bits and dbvals); Model/C20Multi.v (one session, several objects: objects_to_save order, auto-flush in front of a '
+    'statement, rollback of the whole transaction); Model/C20Decisions.v (error class of a failed check by kind of session), tied by direct tests',
+    'the harness (tools/c20_sessions.py, c20_driver.py, c20_life_driver.py, c20_multi_driver.py, c20_forupdate.py): worker threads stepped one operation at a '
+    'time by a controller (a step is never classified by a timeout: the hard timeout only reports a hang; whether another session may commit is decided by '
+    'reading provider.transaction_lock.locked()), sqlite3 set_trace_callback capture of expanded SQL, parser of the captured statements',
     'SQLite executes `UPDATE ... WHERE` atomically and reports rowcount; a BEGIN IMMEDIATE ... COMMIT transaction is atomic; '
     'threading.Lock is a mutex (the provider serialises write transactions with it)',
 ]
 ASSUMPTIONS = [
-    'one shared object (row); sessions are optimistic db_sessions whose operations are attribute reads, attribute writes '
-    '(constant, or another attribute of the object plus a constant) and the commit at the end of the db_session; flushes happen only '
-    'inside the commit step (no query between a write and the commit), so no session holds the SQLite write lock between two steps',
+    'schedule model (C20Opt): one shared object; optimistic db_sessions whose operations are attribute reads, attribute writes (constant, or another attribute '
+    'of the object plus a constant) and the commit at the end of the db_session; flushes happen only inside the commit step, so no session holds the SQLite '
+    'write lock between two steps',
+    'model Life: one session, one object without volatile attributes; created objects get all attributes non-None; model Multi: one session, objects with two '
+    'plain attributes; in both the other sessions are a raw connection that commits only while provider.transaction_lock is free (it would block otherwise)',
     'values are None or small integers (float attributes hold integral values; RealConverter compares with a 1e-14 relative tolerance, '
     'which coincides with equality on them); int attribute range checks are not exercised',
     'PostgreSQL is not executed in this sandbox: the session-side logic modelled here is provider independent, the row-level '
     'behaviour of `UPDATE ... WHERE` under READ COMMITTED (re-evaluation of the WHERE clause after a concurrent commit) is assumed',
-    'model Life (one session with several transactions, get_for_update, created object, other sessions\' commits inserted at every position): one object, '
-    'attributes without volatile; created objects get all attributes non-None; the other session is a raw connection that commits only while the provider\'s '
-    'write lock is free (it would block otherwise); select().for_update(), db_session(optimistic=False) and two flushes in one transaction are covered by the direct test c20_forupdate.py',
+    'outside the statement as written (documented observations, pinned by direct tests): DELETE carries no optimistic criteria and ignores rowcount; '
+    'an object that is only read (not updated) is not checked (write skew); select().for_update(), db_session(optimistic=False) and two flushes in one '
+    'transaction are covered by direct tests only',
 ]
 RULE = ('exhaustive per enumerated pair: unordered pairs of programs from a fixed pool of 17 short programs (quick tier: the diagonal, all pairs with the increment programs and a seed-dependent fifth of the others; thorough: all 153) (read/write of plain, optimistic=False, '
         'float, float optimistic=True and volatile attributes, increments, read-own-write, NULL values) x every complete interleaving, '
@@ -721,7 +726,7 @@ def replay(ctx, data):
 LEVEL_TEXT = ('Machine-checked proof (Coq 8.16.1) over an executable model of Pony\'s optimistic concurrency control (read/write bits, optimistic '
               'WHERE criteria, rowcount check, commit/rollback) for one shared object: for all programs of reads/writes/commit, any number of sessions '
               'and ALL interleavings (induction over the schedule), a session\'s update is applied iff every protected attribute it observed from '
-              'the database still holds the observed value; otherwise it ends in OptimisticCheckError and the row is untouched; and (C20_serial) a successful commit of a session whose reads are all protected leaves the row exactly as if that session had run alone at commit time; (model Life) for one session running several transactions with explicit commits, get_for_update and created objects, against arbitrary commits of other sessions: the for_update exemption is alive only while the row is uninserted or the session holds the write lock, and every UPDATE that is applied - with criteria or exempt - finds the protected attributes read unchanged; (model Multi) one session on several objects with auto-flush: a commit is all-or-nothing across objects and every object of a successful flush passed its own check. Every run replays '
+              'the database still holds the observed value; otherwise it ends in OptimisticCheckError and the row is untouched; and (C20_serial) a successful commit of a session whose reads are all protected leaves the row exactly as if that session had run alone at commit time; (model Life) for one session running several transactions with explicit commits, get_for_update and created objects, against arbitrary commits of other sessions: the for_update exemption is alive only while the row is uninserted or the session holds the write lock, and every UPDATE that is applied - with criteria or exempt - finds the protected attributes read unchanged; (model Multi) one session on several objects with auto-flush: a commit is all-or-nothing across objects and every object of a successful flush passed its own check; a failed check is an OptimisticCheckError in every kind of session (C20_rowcount0). Every run replays '
               'all interleavings of pairs (and seeded triples) of short programs on real threaded db_sessions over a SQLite file and compares rows, '
               'outcomes, observed values and captured UPDATE statements with the model by vm_compute.')
 LEVEL_NOTE = ('Partial: the n-session schedule model has a single shared row (several objects are modelled for one session against arbitrary external commits, model Multi); DELETE carries no optimistic criteria (pinned by a direct test, outside the statement); in the n-session schedule model flushes happen only at commit; '
